@@ -422,20 +422,19 @@ class World:
     def finish(self, discarded):
         """drop everything, drain, then: nothing may pin the owner's objects (C09 no leak)"""
         if not self.lost:
-            for pid in sorted(self.held):
-                if pid != 0:
-                    self.a_drop(pid, True)
             for i in range(1000):
+                # proxies still held (or delivered while draining) are dropped at once; pending _handleRefLost run
+                for pid in sorted(self.held):
+                    if pid != 0:
+                        self.a_drop(pid, True)
+                self.turn()
+                self.pending_reflost = 0
                 if not (self.tO.q or self.tH.q):
                     break
                 if self.tH.q:
                     self.a_ho()
                 else:
                     self.a_oh()
-                # proxies delivered while draining are dropped at once
-                for pid in sorted(self.held):
-                    if pid != 0:
-                        self.a_drop(pid, True)
             self.audit()
         left = {c: t.refcount for c, t in self.O.myReferenceByCLID.items() if t.obj is not self.otarget}
         wr = {k: weakref.ref(o) for k, o in self.objs.items() if k}
